@@ -171,7 +171,7 @@ func TestC08Rapid(t *testing.T) {
 				kind := ""
 				d := rapid.SampledFrom(w.denoms).Draw(rt, "denom")
 				amt := int64(rapid.IntRange(0, 100000).Draw(rt, "amt"))
-				if hk := rapid.IntRange(0, 9).Draw(rt, "hook"); hk < 5 && to == recipient.Str {
+				if hk := rapid.IntRange(0, 9).Draw(rt, "hook"); hk < 6 && to == recipient.Str {
 					num, seq := accInfo(tc.l2, recipient)
 					l2d := tcL2Denom(tc, d)
 					send := func(v int64) sdk.Msg {
@@ -188,6 +188,8 @@ func TestC08Rapid(t *testing.T) {
 						kind, msgs = "hook-withdraws", []sdk.Msg{send(1), wdraw}
 					case 4:
 						kind, msgs = "hook-withdraws-then-fails", []sdk.Msg{wdraw, send(1 << 50)}
+					case 5:
+						kind, msgs = "hook-withdraws-then-sends", []sdk.Msg{wdraw, send(1)}
 					}
 					data = signTx(tc.l2, msgs, []cryptotypes.PrivKey{recipient.Priv}, []uint64{num}, []uint64{seq}, henv.L2ChainID)
 				}
@@ -237,6 +239,9 @@ func TestC08Rapid(t *testing.T) {
 					amt = bal
 				}
 				to := tc.users[rapid.IntRange(0, 4).Draw(rt, "wto")].Str
+				if rapid.IntRange(0, 4).Draw(rt, "upper") == 0 {
+					to = strings.ToUpper(to) // the all-uppercase spelling is a valid L1 address as well
+				}
 				r := tc.l2.Deliver(opchildtypes.NewMsgInitiateTokenWithdrawal(u.Str, to, sdk.NewCoin(tcL2Denom(tc, d), amt)))
 				if r.OK() {
 					for _, x := range parseWithdrawalEvents(r.Events) {
